@@ -613,6 +613,32 @@ func (c *fctx) checkGlyph(t ev.TB, gid uint32) (nontrivial bool) {
 	// ---- extents: libharfbuzz is the specification
 	pe, pok := c.pf.GlyphExtents(G)
 	he, hok := c.hb.GlyphExtents(gid)
+	// ---- a request repeated with identical arguments gets the identical answer: every metric is
+	// asked again on the same face, and once more after a different glyph has been queried in
+	// between (the face memoizes extents)
+	{
+		other := font.GID(0)
+		if c.nGlyphs > 1 {
+			other = font.GID((gid + 1) % uint32(c.nGlyphs))
+		}
+		pe2, pok2 := c.pf.GlyphExtents(G)
+		pa2 := c.pf.HorizontalAdvance(G)
+		c.pf.GlyphExtents(other)
+		c.pf.HorizontalAdvance(other)
+		pe3, pok3 := c.pf.GlyphExtents(G)
+		pa3 := c.pf.HorizontalAdvance(G)
+		if pe2 != pe || pok2 != pok || pe3 != pe || pok3 != pok {
+			c.violate(t, "glyph", cs, "extents-not-repeatable", fmtExt(pe, pok), fmt.Sprintf("second call %s, third call (after another glyph) %s; libharfbuzz %s", fmtExt(pe2, pok2), fmtExt(pe3, pok3), fmtHExt(he, hok)))
+		}
+		if pa2 != pa || pa3 != pa {
+			c.violate(t, "glyph", cs, "h-advance-not-repeatable", fmt.Sprint(pa), fmt.Sprintf("second call %g, third call %g", pa2, pa3))
+		}
+		if hasV {
+			if v1, v2 := c.pf.VerticalAdvance(G), c.pf.VerticalAdvance(G); v1 != v2 {
+				c.violate(t, "glyph", cs, "v-advance-not-repeatable", fmt.Sprint(v1), fmt.Sprint(v2))
+			}
+		}
+	}
 	extOK := true
 	if pok != hok || (pok && !c.extentsAgree(pe, he)) {
 		extOK = false
